@@ -261,7 +261,8 @@ INJECTIONS = ["unknown-field", "leaf-with-selection", "composite-without-selecti
               "subscription-two-fields", "subscription-fragment-two-fields", "subscription-same-key-twice", "subscription-inline-one-field", "mutation-valid", "cycle-behind-shared-fragment", "shared-fragment-no-cycle",
               "cross-fragment-conflict-11", "cross-fragment-conflict-12", "cross-fragment-conflict-21", "cross-fragment-conflict-22", "cross-fragment-compatible",
               "two-operations-shared-fragment-variable-types",
-              "abstract-no-overlap", "abstract-partial-overlap", "abstract-in-abstract-no-overlap"]
+              "abstract-no-overlap", "abstract-partial-overlap", "abstract-in-abstract-no-overlap",
+              "skipped-spread-then-spread", "skipped-variable-spread-then-spread", "cyclic-subscription-fragments", "self-spreading-subscription-fragment"]
 
 
 def normalise(doc):
@@ -498,6 +499,25 @@ def _inject(doc, label, rng):
     elif label == "abstract-in-abstract-no-overlap":
         doc["defs"].append({"k": "frag", "name": "OnJ", "op": "", "vars": [], "on": "J", "sel": [field("s")]})
         op["sel"].append(field("u2", "aia", [], [spread("OnJ")]))
+    elif label in ("skipped-spread-then-spread", "skipped-variable-spread-then-spread"):
+        # the same fragment spread twice: the first spread is switched off, the second one is not
+        doc["defs"].append({"k": "frag", "name": "Sts", "op": "", "vars": [], "on": "Query", "sel": [field("a", "sts1"), field("o", "sts2", [], [field("s")])]})
+        if label.startswith("skipped-variable"):
+            op["vars"].append(vardef("stsv", {"k": "nn", "of": named("Boolean")}))
+            d = directive("skip", {"k": "var", "n": "stsv"})
+        else:
+            d = directive("include", boolv(False))
+        if op["op"] == "query":
+            op["sel"] += [spread("Sts", [d]), field("a", "stsmid"), spread("Sts")]
+    elif label in ("cyclic-subscription-fragments", "self-spreading-subscription-fragment"):
+        if label.startswith("cyclic"):
+            doc["defs"].append({"k": "frag", "name": "ScA", "op": "", "vars": [], "on": "Subscription", "sel": [field("s1"), spread("ScB")]})
+            doc["defs"].append({"k": "frag", "name": "ScB", "op": "", "vars": [], "on": "Subscription", "sel": [spread("ScA")]})
+        else:
+            doc["defs"].append({"k": "frag", "name": "ScA", "op": "", "vars": [], "on": "Subscription", "sel": [field("s1"), spread("ScA")]})
+        doc["defs"].append({"k": "op", "name": "SubCyc", "op": "subscription", "vars": [], "on": "", "sel": [inline("Subscription", [spread("ScA")])]})
+        if not op["name"]:
+            op["name"] = "Main"
     elif label == "repeated-inline-unknown-field":
         op["sel"].append(field("o", "riu", [], [inline("Obj", [field("a")]), inline("Obj", [field("nope")])]))
     elif label == "bad-variable-default":
